@@ -3,6 +3,7 @@ module verif/harness
 go 1.26.8
 
 require (
+	github.com/anishathalye/porcupine v1.3.0
 	github.com/energomonitor/bisquitt v0.0.0
 	pgregory.net/rapid v1.3.0
 )
